@@ -412,7 +412,15 @@ func restartRewriter(func() int) func() int {
 				writeAtomic(t.path, c)
 			}
 			n++
-			time.Sleep(20 * time.Millisecond)
+			// The cache looks at the file again only when the modification time it remembers is more than 100 ms
+			// old (runtime/watchmode.go), so a file rewritten every 20 ms is never reloaded on an idle machine.
+			// Alternate two quick rewrites with a pause longer than that: readers reload during the pauses and
+			// run concurrently with the writer during the bursts.
+			if n%3 == 0 {
+				time.Sleep(140 * time.Millisecond)
+			} else {
+				time.Sleep(15 * time.Millisecond)
+			}
 		}
 	}()
 	return func() int { close(stop); return <-done }
